@@ -1,6 +1,13 @@
 // ---- prelude/treefacts.rs : PARSER FACTS about error-free typst-syntax trees (assumptions, validated on fixtures) ----
 pub open spec fn is_nl_space(n: &SyntaxNode) -> bool {
+    n.kind_s() == SyntaxKind::Space && has_newline_s(n.text_s())
+}
+/// in markup the whitespace after a line comment may also be a paragraph break
+pub open spec fn is_nl_space_or_parbreak(n: &SyntaxNode) -> bool {
     (n.kind_s() == SyntaxKind::Space || n.kind_s() == SyntaxKind::Parbreak) && has_newline_s(n.text_s())
+}
+pub open spec fn lc_followed_markup(ch: Seq<&SyntaxNode>) -> bool {
+    forall|j: int| 0 <= j && j + 1 < ch.len() && (#[trigger] ch[j]).kind_s() == SyntaxKind::LineComment ==> is_nl_space_or_parbreak(ch[j + 1])
 }
 /// every line comment in the sequence that has a successor is followed by whitespace holding a line break
 pub open spec fn lc_followed(ch: Seq<&SyntaxNode>) -> bool {
@@ -22,7 +29,8 @@ pub proof fn pf_children(n: &SyntaxNode)
 pub proof fn pf_line_comments(n: &SyntaxNode)
     requires tree_wf(n),
     ensures
-        lc_followed(n.children_s()),
+        n.kind_s() != SyntaxKind::Markup ==> lc_followed(n.children_s()),
+        n.kind_s() == SyntaxKind::Markup ==> lc_followed_markup(n.children_s()),
         n.kind_s() != SyntaxKind::Markup ==> !last_is_lc(n.children_s()),
 {}
 /// PF2: leaf texts. A LineComment's text starts with `//` and contains no newline; no other leaf's text starts with `//`
@@ -63,3 +71,11 @@ pub proof fn pf_error_free(n: &SyntaxNode)
     requires !n.erroneous_s(),
     ensures tree_wf(n),
 {}
+
+/// constructs whose line breaks sit inside their own delimiters (property C01): they may be laid out over several lines
+/// without protective parentheses
+pub open spec fn self_delimited_kind(k: SyntaxKind) -> bool {
+    matches!(k, SyntaxKind::Parenthesized | SyntaxKind::CodeBlock | SyntaxKind::ContentBlock | SyntaxKind::FuncCall | SyntaxKind::Array
+        | SyntaxKind::Dict | SyntaxKind::Conditional | SyntaxKind::WhileLoop | SyntaxKind::ForLoop | SyntaxKind::Contextual
+        | SyntaxKind::Closure | SyntaxKind::Raw)
+}
